@@ -205,7 +205,7 @@ def work_program(item: tuple[dict[str, Any], tuple[int, ...], str, bool]) -> dic
             out["nontrivial"].append(_digest(prog, text))
         record("batch", i, r["violations"], obs(r))
     if do_daemon:
-        dd = _workdir("d")
+        dd = os.path.join(scratch("c20"), f"d{os.getpid()}")  # this worker's daemon directory, for its whole life
         d = L.run_daemon_program(dd, prog["files"], prog["main"], [t for _k, _d, t in muts])
         dsum = {"runs": 0, "changed": 0, "skipped": 0}
         if "harness_error" in d:
@@ -228,7 +228,6 @@ def work_program(item: tuple[dict[str, Any], tuple[int, ...], str, bool]) -> dic
                     elif mres.get("changed"):
                         dsum["changed"] += 1
         out["daemon"] = dsum
-        shutil.rmtree(dd, ignore_errors=True)
     shutil.rmtree(wd, ignore_errors=True)
     return out
 
@@ -609,10 +608,9 @@ def replay(ctx: Ctx, rec: dict) -> Result:
     L.write_program(wd, text, prog["files"])
     log(f"C20 replay: files written to {wd}: main.py {sorted(prog['files'])}")
     if d.get("lane") == "daemon":
-        L.warm_daemon(os.path.join(root, "daemon-warm"))
-        os.chdir(root)
-        dd = _workdir("d")
+        dd = os.path.join(root, f"d{os.getpid()}")
         r = L.run_daemon_program(dd, prog["files"], prog["main"], [text])
+        os.chdir(root)
         cov["evaluations"] += 1
         found = []
         if "harness_error" in r:
